@@ -102,8 +102,8 @@ Fixpoint ref_items (con : bool) (prefix : list string) (ops : list (option (tree
               rbind (ref_items false (prefix ++ [k])%list es (sout_child out k) g) (fun kept =>
               ROk (if dropped g kept then None else Some (SNode (write_all (sbase g out_k) kept))))
           | NonT _ _ _ =>
-              (* a non-tensor entry left untouched by the function is kept (as out has it, when out has it) *)
-              ROk (Some (match (if o_inplace o then None else sout_child out k) with Some x => x | None => SNonT end))
+              (* a non-tensor entry left untouched by the function is kept *)
+              ROk (Some SNonT)
           | Leaf _ _ => ROther
           end in
       rbind r (fun v =>
@@ -137,16 +137,6 @@ Fixpoint wf_sub (f : forest A) : bool :=
   end.
 Definition wf_keys (f : forest A) : bool := nodup_str (fkeys A f) && wf_sub f.
 
-(* no nested tensordict reuses a key of the level that holds it (outside this domain the stand-in
-   self.empty(recurse=True) of the PARENT level can be hit by a lookup: C20-b) *)
-Fixpoint nohit_in (K : list string) (f : forest A) : bool :=
-  match f with
-  | FNil => true
-  | FCons _ t r =>
-      match t with Node _ _ h => disjoint_str (fkeys A h) K && nohit_in (fkeys A h) h | _ => true end && nohit_in K r
-  end.
-Definition nohit (f : forest A) : bool := nohit_in (fkeys A f) f.
-
 (* ------------------------------------------------------------------ identity: which of the objects handed to the call occur in a tree *)
 Definition ob_ids (ob : obj) : list Z := match ob with Old z => [z] | New => [] end.
 Fixpoint olds_t (t : tree A) : list Z :=
@@ -168,12 +158,6 @@ Fixpoint shape_t (t : tree A) : shape :=
   end
 with shape_f (f : forest A) : list (string * shape) :=
   match f with FNil => [] | FCons k t r => (k, shape_t t) :: shape_f r end.
-
-(* named_apply: accepts out= and does not forward it.  DEFECT C20-a.  When repaired: [front ... out names]
-   (and harness/c20.py::model_line forwards out for front == "named_apply") *)
-Definition named_apply_front (con propagate : bool) (self : tree A) (others : list (tree A)) (out : option (tree A))
-           (names : option dnames) : res (option (tree A)) :=
-  front A o fn con propagate self others None names.
 
 End Spec.
 
